@@ -46,6 +46,7 @@ package bulkhead
 //@   ensures [C06.acquirewait] (result == nil) ==> tokens(b.semaphore) == old(tokens(b.semaphore)) + 1
 //@   ensures [C06.acquirewait.refused] (result != nil) ==> tokens(b.semaphore) == old(tokens(b.semaphore))
 //@   ensures [C06.acquirewait.errors+C08.bulkhead.wait_reports_cancellation] result != nil ==> result == ErrFull || ncalls(ite(ctx == nil, background(), ctx).Err) == 1
+//@   ensures [C08.bulkhead.done_context_wins_over_full] old(canceled(ite(ctx == nil, background(), ctx))) && result != nil ==> ncalls(ite(ctx == nil, background(), ctx).Err) == 1 && result == reti(ite(ctx == nil, background(), ctx).Err, 1)
 //@   havoc
 //@   modifies tokens(b.semaphore), calls(ctx.Done), calls(ctx.Err), calls(background().Done), calls(background().Err), canceled(ctx), canceled(background())
 
